@@ -1,9 +1,11 @@
 """C19 - data functions implement their relational meaning; CSV typing round-trips."""
 
 import calendar
+import collections
 import copy
 import csv
 import datetime
+import enum
 import functools
 import json
 import math
@@ -35,8 +37,16 @@ ASSUMPTIONS = [
     'rows are Python dicts with str keys in insertion order, modelled as association lists with pairwise different keys; the rows of one table '
     'are distinct objects (no row aliased twice in one data array) and values are not self-containing (known finding F18)',
     'numbers: every finite int/float is an exact rational (1 and 1.0 are one value, as for Python == / hash and for value_compare); NaN/inf excluded',
-    'datetimes in tables are naive datetime.datetime values (what datetimeNew / parsing produce); the model holds the normalised instant as an '
-    'integer; date objects and aware datetimes (whose Python </==/hash differ) are outside the data streams',
+    'datetimes in tables: the model holds the normalised instant as an integer. The `data` stream uses naive datetime.datetime values (what '
+    'datetimeNew / parsing produce). Host representations (timezone-aware datetimes, plain dates, sub-millisecond values, subclasses of int / float / '
+    'str / dict / list / datetime / date, IntEnum / str-Enum members) are covered by the streams `host`, `hostkey`, `reuse` under fixed-offset zones: the '
+    'Lean model is compared on the PLAIN TWIN (every host value replaced by the plain value it stands for - reference normalisation written in the '
+    'harness: aware = local wall clock of the same instant, date = local midnight, subclass / member = base value); that the implementation treats a '
+    'host value like its plain twin is established by the implementation-side oracles only (reference relational semantics on plain values, '
+    'host-table-equals-plain-twin). Kept out of the oracles (host-boundary findings, reported): dataAggregate min / max over datetimes of more than '
+    'one representation (Python min()/max() raise TypeError), average over IntEnum members (statistics.mean converts the mean back to the enum class)',
+    'options objects: every case of the data / host streams gets fresh options; the `reuse` stream re-uses one options object over a history of calls '
+    '(with failing calls) and checks each call against the fresh-options reference and that the caller\'s globals are untouched',
     'functions and regexes are keyed by identity by _bucket_key: outside the value fragment of bucket_key_faithful (IsData)',
     'dataAggregate: math.fsum returns the correctly rounded exact sum (measure ints stay below 2^53: fsum converts each int to a double first), '
     'statistics.mean the correctly rounded exact mean (int when integral over ints) and statistics.pstdev the correctly rounded square root of '
@@ -119,18 +129,32 @@ def build(s):
         return [build(x) for x in v]
     if k == 'o':
         return {kk: build(x) for kk, x in v}
+    if k == 'dz':
+        return datetime.datetime(*v[:7], tzinfo=host_zone(v[7]))
+    if k == 'dd':
+        return datetime.date(*v)
+    if k == 'h':
+        return build_host(v[0], v[1])
     raise ValueError(s)
 
 
 def spec_of(v):
     if v is None or isinstance(v, (bool, str)):
         return v
+    kind = host_kind(v)
+    if kind is not None:
+        return {'h': [kind, spec_of(plain_shallow(v))]}
     if isinstance(v, int):
         return I(v)
     if isinstance(v, float):
         return F(v)
     if isinstance(v, datetime.datetime):
-        return {'d': [v.year, v.month, v.day, v.hour, v.minute, v.second, v.microsecond]}
+        fields = [v.year, v.month, v.day, v.hour, v.minute, v.second, v.microsecond]
+        if v.tzinfo is not None:
+            return {'dz': fields + [v.utcoffset() // datetime.timedelta(minutes=1)]}
+        return {'d': fields}
+    if isinstance(v, datetime.date):
+        return {'dd': [v.year, v.month, v.day]}
     if isinstance(v, list):
         return {'l': [spec_of(x) for x in v]}
     if isinstance(v, dict):
@@ -138,30 +162,204 @@ def spec_of(v):
     return {'other': repr(v)}
 
 
-def build_table(rows):
-    return [{k: build(v) for k, v in row} for row in rows]
+def build_table(rows, rowkind=None, tablekind=None):
+    """rowkind: None (plain dict rows) | 'hdict' (dict subclass) | 'odict' (collections.OrderedDict) | 'hkeys' (field names are str-subclass
+    instances); tablekind: None (plain list) | 'hlist' (list subclass) - what an embedding application may hand over in globals"""
+    out = []
+    for row in rows:
+        if rowkind == 'hkeys':
+            out.append({HStr(k): build(v) for k, v in row})
+        elif rowkind == 'hdict':
+            out.append(HDict((k, build(v)) for k, v in row))
+        elif rowkind == 'odict':
+            out.append(collections.OrderedDict((k, build(v)) for k, v in row))
+        else:
+            out.append({k: build(v) for k, v in row})
+    return HList(out) if tablekind == 'hlist' else out
+
+
+def case_table(case, key='rows'):
+    return build_table(case[key], case.get('rowkind'), case.get('tablekind'))
+
+
+# ---------------------------------------------------------------------------------------------------------------------
+# Host-boundary values: what an embedding application can put into globals although no script expression produces it - timezone-aware
+# datetimes, plain dates, sub-millisecond datetimes, subclasses of int / float / str / dict / list / datetime / date, enum members that are ints
+# or strs.  The language gives each of them a type (value_type) and an order (value_compare); `plain` is the reference reading, written
+# here from the documentation (aware datetime = the local wall clock of the same instant, date = local midnight, subclass / enum member = the
+# value of its base type) and independent of value.py.
+# ---------------------------------------------------------------------------------------------------------------------
+
+class HInt(int):
+    pass
+
+
+class HFloat(float):
+    pass
+
+
+class HStr(str):
+    pass
+
+
+class HDict(dict):
+    pass
+
+
+class HList(list):
+    pass
+
+
+class HDatetime(datetime.datetime):
+    pass
+
+
+class HDate(datetime.date):
+    pass
+
+
+HIntEnum = enum.IntEnum('HIntEnum', {'N%d' % n: n for n in range(0, 11)})
+HSTR_ENUM_VALUES = ['', 'a', 'x', '1', 'A', 'b', 'ab', 'true', 'k']
+HStrEnum = enum.Enum('HStrEnum', {'S%d' % i: v for i, v in enumerate(HSTR_ENUM_VALUES)}, type=str)
+
+
+def H(kind, inner):
+    return {'h': [kind, inner]}
+
+
+def DZ(y, mo, d, h, mi, s, us, offmin):
+    return {'dz': [y, mo, d, h, mi, s, us, offmin]}
+
+
+def DD(y, mo, d):
+    return {'dd': [y, mo, d]}
+
+
+def host_zone(offmin):
+    return datetime.timezone.utc if offmin == 0 else datetime.timezone(datetime.timedelta(minutes=offmin))
+
+
+def build_host(kind, inner):
+    v = build(inner)
+    if kind == 'int':
+        return HInt(v)
+    if kind == 'float':
+        return HFloat(v)
+    if kind == 'str':
+        return HStr(v)
+    if kind == 'ienum':
+        return HIntEnum(v)
+    if kind == 'senum':
+        return HStrEnum(v)
+    if kind == 'dict':
+        return HDict(v)
+    if kind == 'odict':
+        return collections.OrderedDict(v)
+    if kind == 'list':
+        return HList(v)
+    if kind == 'dt':
+        return HDatetime(v.year, v.month, v.day, v.hour, v.minute, v.second, v.microsecond, tzinfo=v.tzinfo)
+    if kind == 'date':
+        return HDate(v.year, v.month, v.day)
+    raise ValueError(kind)
+
+
+_HOST_KINDS = [(HIntEnum, 'ienum'), (HStrEnum, 'senum'), (HInt, 'int'), (HFloat, 'float'), (HStr, 'str'), (HDict, 'dict'),
+               (collections.OrderedDict, 'odict'), (HList, 'list'), (HDatetime, 'dt'), (HDate, 'date')]
+
+
+def host_kind(v):
+    for cls, kind in _HOST_KINDS:
+        if type(v) is cls:  # pylint: disable=unidiomatic-typecheck
+            return kind
+    return None
+
+
+def plain_shallow(v):
+    """the value of the base type of a subclass instance / enum member (containers: the members are kept)"""
+    if isinstance(v, bool) or v is None:
+        return v
+    if isinstance(v, int):
+        return int.__int__(v)
+    if isinstance(v, float):
+        return float.__float__(v)
+    if isinstance(v, str):
+        return str.__str__(v)
+    if isinstance(v, datetime.datetime):
+        return datetime.datetime(v.year, v.month, v.day, v.hour, v.minute, v.second, v.microsecond, tzinfo=v.tzinfo)
+    if isinstance(v, datetime.date):
+        return datetime.date(v.year, v.month, v.day)
+    if isinstance(v, dict):
+        return dict(v.items())
+    if isinstance(v, list):
+        return list(v)
+    return v
+
+
+def ref_normalize_datetime(v):
+    """the naive local datetime a date / datetime value stands for: a date is its local midnight, an aware datetime is the wall clock of the
+    same instant in the (fixed-offset) zone the check runs in; microseconds are kept"""
+    if isinstance(v, datetime.datetime):
+        wall = datetime.datetime(v.year, v.month, v.day, v.hour, v.minute, v.second, v.microsecond)
+        if v.tzinfo is not None:
+            return wall - v.utcoffset() + datetime.timedelta(seconds=local_offset())
+        return wall
+    return datetime.datetime(v.year, v.month, v.day)
+
+
+_PLAIN_TYPES = (type(None), bool, int, float, str)
+
+
+def plain(v):
+    """the language-level plain twin of a host value (recursively)"""
+    if type(v) in _PLAIN_TYPES:
+        return v
+    if isinstance(v, datetime.date):
+        return ref_normalize_datetime(v)
+    if isinstance(v, dict):
+        return {plain(k): plain(x) for k, x in v.items()}
+    if isinstance(v, list):
+        return [plain(x) for x in v]
+    return plain_shallow(v)
 
 
 def enc(v):
-    """wire form of a value (Drv/C19.lean)"""
+    """wire form of a value (Drv/C19.lean); host values are sent as the plain values they stand for"""
+    t = type(v)
+    if t is str:
+        return {'t': 'str', 'v': v}
     if v is None:
         return {'t': 'null'}
-    if isinstance(v, str):
-        return {'t': 'str', 'v': v}
-    if isinstance(v, bool):
+    if t is bool:
         return {'t': 'bool', 'v': v}
-    if isinstance(v, (int, float)):
-        if isinstance(v, float) and (v != v or v in (float('inf'), float('-inf'))):
+    if t is int:
+        return {'t': 'num', 'v': [v, 1]}
+    if t is float:
+        if v != v or v in (math.inf, -math.inf):
             return {'t': 'nonfinite', 'v': repr(v)}
-        fr = Fraction(v)
-        return {'t': 'num', 'v': [fr.numerator, fr.denominator]}
-    if isinstance(v, datetime.datetime) and v.tzinfo is None:
+        n, d = v.as_integer_ratio()
+        return {'t': 'num', 'v': [n, d]}
+    if t is dict:
+        return {'t': 'obj', 'v': [[k if type(k) is str else _enc_key(k), enc(x)] for k, x in v.items()]}  # pylint: disable=unidiomatic-typecheck
+    if t is list:
+        return {'t': 'arr', 'v': [enc(x) for x in v]}
+    if t is datetime.datetime and v.tzinfo is None:
         return {'t': 'dt', 'v': (v - EPOCH1) // US}
+    # host representations
+    if isinstance(v, (str, int, float)):
+        return enc(plain_shallow(v))
+    if isinstance(v, datetime.date):
+        # aware datetimes, plain dates, subclasses: the instant they stand for (reference normalisation)
+        return {'t': 'dt', 'v': (ref_normalize_datetime(v) - EPOCH1) // US}
     if isinstance(v, dict):
-        return {'t': 'obj', 'v': [[k, enc(x)] for k, x in v.items()]}
+        return {'t': 'obj', 'v': [[k if type(k) is str else _enc_key(k), enc(x)] for k, x in v.items()]}  # pylint: disable=unidiomatic-typecheck
     if isinstance(v, list):
         return {'t': 'arr', 'v': [enc(x) for x in v]}
-    return {'t': 'opaque', 'v': type(v).__name__}
+    return {'t': 'opaque', 'v': t.__name__}
+
+
+def _enc_key(k):
+    return str.__str__(k) if isinstance(k, str) else k
 
 
 def enc_table(t):
@@ -213,6 +411,8 @@ def typed_equal(a, b):
         return len(a) == len(b) and all(typed_equal(x, y) for x, y in zip(a, b))
     if ta == 'object':
         return set(a) == set(b) and all(typed_equal(a[k], b[k]) for k in a)
+    if type(a) not in _PLAIN_TYPES or type(b) not in _PLAIN_TYPES:
+        a, b = plain(a), plain(b)           # host values: compared as the plain values they stand for
     return fw.impl()['value'].value_compare(a, b) == 0 and fw.impl()['value'].value_type(a) == fw.impl()['value'].value_type(b)
 
 
@@ -250,7 +450,8 @@ def ref_sort(rows, sorts):
     vc = fw.impl()['value'].value_compare
     order = list(range(len(rows)))
     for field, desc in reversed(sorts):
-        order.sort(key=functools.cmp_to_key(lambda i, j, f=field: vc(rows[i].get(f), rows[j].get(f))), reverse=desc)
+        keys = [plain(r.get(field)) for r in rows]
+        order.sort(key=functools.cmp_to_key(lambda i, j, ks=keys: vc(ks[i], ks[j])), reverse=desc)
     return order
 
 
@@ -287,11 +488,58 @@ def base_options(extra_globals=None):
     return {'globals': g, 'maxStatements': MAXS}
 
 
-def eval_rows(expr, rows, variables=None):
-    """the expression value per row with the real evaluator (RAISED when it raises)"""
+def _host_id(args, unused_options):
+    return args[0] if args else None
+
+
+def _host_boom(args, unused_options):
+    raise ValueError('host function failed')
+
+
+def _host_odd(args):            # a host callable without the options parameter: the call fails inside the evaluator (-> null)
+    return args[0]
+
+
+def _host_kw(args, options=None, *, strict=False):
+    return None if strict else (args[0] if args else None)
+
+
+HOST_FUNCTIONS = {'hostId': _host_id, 'hostBoom': _host_boom, 'hostOdd': _host_odd, 'hostKw': _host_kw}
+
+
+def case_globals(case):
+    """the host globals of a case: variables the embedding application put into options['globals'] (names may collide with field names)
+    and, with `hostfns`, host callables"""
+    g = {}
+    if case.get('hostfns'):
+        g.update(HOST_FUNCTIONS)
+    if case.get('globals'):
+        g.update(build(case['globals']))
+    return g
+
+
+def case_vars(case):
+    return build(case['vars']) if case.get('vars') else None
+
+
+def case_env(case):
+    """(variables argument, host globals, options mode) of a case"""
+    return case_vars(case), case_globals(case), case.get('opt')
+
+
+def eval_rows(expr, rows, variables=None, globals_=None, opt=None):
+    """the expression value per row with the real evaluator and FRESH options (RAISED when it raises): the variables argument shadows the
+    globals, a row field shadows both.  opt 'bare' / 'none': the caller's options have no globals (the variables are all there is)"""
     parser, runtime = fw.impl()['parser'], fw.impl()['runtime']
     e = parser.parse_expression(expr)
-    opts = base_options(variables)
+    if opt in ('bare', 'none'):
+        opts = {'maxStatements': MAXS}
+        if variables is not None:
+            opts['globals'] = dict(variables)
+    else:
+        g = dict(globals_ or {})
+        g.update(variables or {})
+        opts = base_options(g)
     out = []
     for row in rows:
         try:
@@ -301,19 +549,30 @@ def eval_rows(expr, rows, variables=None):
     return out
 
 
-def call_lib(name, args, via, script=None, literals=None):
-    """-> ('ok', value) | ('raised', class name).  via = 'direct' (library function object) or 'script' (execute_script)."""
+def call_lib(name, args, via, script=None, literals=None, globals_=None, opt=None, options=None):
+    """-> ('ok', value) | ('raised', class name).  via = 'direct' (library function object), 'script' (execute_script) or 'expr'
+    (evaluate_expression of the call expression).  globals_: host globals; opt (direct only): 'bare' = options without globals, 'none' =
+    options None; options: a caller-owned options object that is RE-USED (histories), the arguments are added to its globals"""
     library, parser, runtime = fw.impl()['library'], fw.impl()['parser'], fw.impl()['runtime']
     try:
         if via == 'direct':
-            return ('ok', library.SCRIPT_FUNCTIONS[name](list(args), base_options()))
+            if options is None:
+                options = None if opt == 'none' else ({'maxStatements': MAXS} if opt == 'bare' else base_options(globals_))
+            return ('ok', library.SCRIPT_FUNCTIONS[name](list(args), options))
         names = [f'arg{i}' for i in range(len(args))]
-        g = dict(zip(names, args))
+        g = dict(globals_ or {})
+        g.update(zip(names, args))
         params = list(names)
         for i, lit in (literals or {}).items():
             params[i] = lit
+        if options is None:
+            options = base_options(g)
+        else:
+            options['globals'].update(zip(names, args))
+        if via == 'expr':
+            return ('ok', runtime.evaluate_expression(parser.parse_expression(f'{name}({", ".join(params)})'), options))
         text = f'return {name}({", ".join(params)})'
-        return ('ok', runtime.execute_script(parser.parse_script(text), base_options(g)))
+        return ('ok', runtime.execute_script(parser.parse_script(text), options))
     except runtime.BareScriptRuntimeError as exc:
         return ('raised', 'BareScriptRuntimeError' if 'Exceeded maximum' not in str(exc) else 'budget')
     except Exception as exc:  # pylint: disable=broad-except
@@ -332,9 +591,9 @@ def num_literal(x):
 def case_request(case):
     """the driver request of a case, or None if the case is checked on the implementation only"""
     op = case['op']
-    rows = build_table(case['rows'])
+    rows = case_table(case)
     if op in ('filter', 'calc'):
-        vals = eval_rows(case['expr'], rows, build(case.get('vars')) if case.get('vars') else None)
+        vals = eval_rows(case['expr'], rows, *case_env(case))
         req = {'op': op, 'rows': enc_table(rows), 'vals': [enc_val(v) for v in vals]}
         if op == 'calc':
             req['field'] = case['field']
@@ -342,17 +601,17 @@ def case_request(case):
     if op == 'sort':
         return {'op': 'sort', 'rows': enc_table(rows), 'sorts': [enc(build(s)) for s in case['sorts']]}
     if op == 'top':
-        c = Fraction(build(case['count']))
+        c = Fraction(plain_shallow(build(case['count'])))
         return {'op': 'top', 'rows': enc_table(rows), 'count': [c.numerator, c.denominator], 'fields': case['fields']}
     if op == 'aggregate':
         return {'op': 'aggregate', 'rows': enc_table(rows), 'categories': case['categories'], 'measures': case['measures']}
     if op == 'join':
-        right = build_table(case['right'])
-        variables = build(case.get('vars')) if case.get('vars') else None
-        lvals = eval_rows(case['expr'], rows, variables)
-        rvals = eval_rows(case['rexpr'] if case.get('rexpr') is not None else case['expr'], right, variables)
+        right = case_table(case, 'right')
+        env = case_env(case)
+        lvals = eval_rows(case['expr'], rows, *env)
+        rvals = eval_rows(case['rexpr'] if case.get('rexpr') is not None else case['expr'], right, *env)
         return {'op': 'join', 'left': enc_table(rows), 'right': enc_table(right), 'lvals': [enc_val(v) for v in lvals],
-                'rvals': [enc_val(v) for v in rvals], 'isLeftJoin': bool(case['isLeftJoin'])}
+                'rvals': [enc_val(v) for v in rvals], 'isLeftJoin': left_flag(case)}
     raise ValueError(op)
 
 
@@ -360,32 +619,47 @@ def aggregation_of(case):
     agg = {'measures': [dict(m) for m in case['measures']]}
     if case['categories'] is not None:
         agg['categories'] = list(case['categories'])
+    if case.get('aggkind') == 'host':
+        # the aggregation model as an embedding application may build it: mapping / sequence / string subclasses
+        agg = collections.OrderedDict((HStr(k), v) for k, v in agg.items())
+        agg['measures'] = HList(HDict((k, HStr(v)) for k, v in m.items()) for m in agg['measures'])
     return agg
 
 
-def run_case(case):
-    """Run the real function.  -> dict(status, result, data (the input objects), extra)"""
+def left_flag(case):
+    """the isLeftJoin argument as the boolean the language reads it as (a bool, or the spec of any value: truthiness)"""
+    v = case['isLeftJoin']
+    return v if isinstance(v, bool) else ref_truthy(build(v))
+
+
+def run_case(case, options=None, table=None):
+    """Run the real function.  -> dict(status, result, data (the input objects), extra).  options: a re-used options object (histories);
+    table: the table OBJECT to work on (pipelines: the outcome of the previous call) - case['rows'] describes its content"""
     op, via = case['op'], case.get('via', 'direct')
-    rows = build_table(case['rows'])
-    variables = build(case['vars']) if case.get('vars') else None
+    rows = table if table is not None else case_table(case)
+    variables = case_vars(case)
+    kw = {'globals_': case_globals(case), 'opt': case.get('opt'), 'options': options}
     out = {'data': rows, 'orig': copy.deepcopy(rows)}
     if op == 'filter':
-        res = call_lib('dataFilter', [rows, case['expr'], variables], via)
+        res = call_lib('dataFilter', [rows, case['expr'], variables], via, **kw)
     elif op == 'calc':
-        res = call_lib('dataCalculatedField', [rows, case['field'], case['expr'], variables], via)
+        res = call_lib('dataCalculatedField', [rows, case['field'], case['expr'], variables], via, **kw)
     elif op == 'sort':
-        res = call_lib('dataSort', [rows, [build(s) for s in case['sorts']]], via)
+        out['before_ids'] = [id(r) for r in rows]       # the identity of the rows before the in-place sort
+        out['keep'] = list(rows)
+        res = call_lib('dataSort', [rows, [build(s) for s in case['sorts']]], via, **kw)
     elif op == 'top':
         count = build(case['count'])
-        lits = {1: num_literal(count)} if via == 'script' and isinstance(count, float) and count.is_integer() and count >= 0 else None
-        res = call_lib('dataTop', [rows, count, case['fields']], via, literals=lits)
+        lits = {1: num_literal(count)} if via == 'script' and type(count) is float and count.is_integer() and count >= 0 else None  # pylint: disable=unidiomatic-typecheck
+        res = call_lib('dataTop', [rows, count, case['fields']], via, literals=lits, **kw)
     elif op == 'aggregate':
-        res = call_lib('dataAggregate', [rows, aggregation_of(case)], via)
+        res = call_lib('dataAggregate', [rows, aggregation_of(case)], via, **kw)
     elif op == 'join':
-        right = build_table(case['right'])
+        right = case_table(case, 'right')
         out['right'] = right
         out['right_orig'] = copy.deepcopy(right)
-        res = call_lib('dataJoin', [rows, right, case['expr'], case.get('rexpr'), case['isLeftJoin'], variables], via)
+        flag = case['isLeftJoin'] if isinstance(case['isLeftJoin'], bool) else build(case['isLeftJoin'])
+        res = call_lib('dataJoin', [rows, right, case['expr'], case.get('rexpr'), flag, variables], via, **kw)
     else:
         raise ValueError(op)
     out['status'], out['result'] = res
@@ -474,10 +748,10 @@ def oracles(case, run):
     bad = []
     op = case['op']
     data, orig = run['data'], run['orig']
-    variables = build(case['vars']) if case.get('vars') else None
+    env = case_env(case)
     res = run['result']
     if op == 'filter':
-        vals = eval_rows(case['expr'], orig, variables)
+        vals = eval_rows(case['expr'], orig, *env)
         if RAISED in vals:
             if run['status'] != 'raised':
                 bad.append(('filter-raise-propagates', 'BareScriptRuntimeError', enc_table(res)))
@@ -491,7 +765,7 @@ def oracles(case, run):
         if enc_table(data) != enc_table(orig):
             bad.append(('filter-leaves-rows-unchanged', enc_table(orig), enc_table(data)))
     elif op == 'calc':
-        vals = eval_rows(case['expr'], orig, variables)
+        vals = eval_rows(case['expr'], orig, *env)
         n_ok = vals.index(RAISED) if RAISED in vals else len(vals)
         if (run['status'] == 'ok') != (n_ok == len(vals)):
             bad.append(('calc-raise-propagates', 'raise iff an evaluation raises', run['status']))
@@ -517,7 +791,7 @@ def oracles(case, run):
         if [id(r) for r in res] != want:
             bad.append(('sort-stable-by-keys', [before.index(i) for i in want], [before.index(id(r)) if id(r) in before else -1 for r in res]))
     elif op == 'top':
-        count = build(case['count'])
+        count = plain(build(case['count']))
         valid = isinstance(count, (int, float)) and not isinstance(count, bool) and int(count) == count and count >= 1
         if not valid:
             if not (run['status'] == 'ok' and res is None) and via_script(case):
@@ -535,11 +809,21 @@ def oracles(case, run):
         bad.extend(aggregate_oracle(case, run))
     elif op == 'join':
         bad.extend(join_oracle(case, run))
+    if op == 'aggregate':
+        out_names = [m.get('name', m['field']) for m in case['measures']]
+        if len(set(out_names)) != len(out_names) or any(n in (case['categories'] or []) for n in out_names):
+            return bad                  # colliding output names: outside the property's meaning (a measure named like a category whose value
+                                        # is an array even appends the measure values to the first row's own array: observation, reported)
+    if op in ('sort', 'top', 'aggregate') and not bad:
+        # the rows themselves are not touched (sort: the row objects in their original order)
+        rows_now = run['keep'] if op == 'sort' else data
+        if len(rows_now) != len(orig) or enc_table(rows_now) != enc_table(orig):
+            bad.append(('table-rows-left-unchanged', enc_table(orig), enc_table(rows_now)))
     return bad
 
 
 def via_script(case):
-    return case.get('via') == 'script'
+    return case.get('via') in ('script', 'expr')
 
 
 def py_sorts(case):
@@ -555,6 +839,13 @@ def py_sorts(case):
 
 def agg_numbers_only(vals):
     return all(isinstance(v, (int, float)) and not isinstance(v, bool) for v in vals)
+
+
+def dt_repr(v):
+    """the representation class of a datetime value: Python orders values inside one class only"""
+    if isinstance(v, datetime.datetime):
+        return 'aware' if v.tzinfo is not None else 'naive'
+    return 'date'
 
 
 def aggregate_oracle(case, run):
@@ -588,16 +879,23 @@ def aggregate_oracle(case, run):
                 row[name] = ('exact', len(vals))
             elif fn in ('min', 'max'):
                 types = {tname(v) for v in vals}
-                if len(types) == 1 and types <= {'number', 'string', 'datetime'}:
-                    best = vals[0]
+                if len(types) == 1 and types <= {'number', 'string', 'datetime'} and (types != {'datetime'} or len({dt_repr(v) for v in vals}) == 1):
+                    best = plain(vals[0])
                     for v in vals[1:]:
+                        v = plain(v)
                         if (vc(v, best) > 0) if fn == 'max' else (vc(v, best) < 0):
                             best = v
                     row[name] = ('cmp0', best)
                 else:
+                    # mixed types; or datetimes in more than one representation (naive / aware / plain date): Python's min()/max() cannot
+                    # order them although the language can (host-boundary finding C19-H1, reported, not yet numbered, kept out of the oracle)
                     decidable = False
+            elif fn == 'average' and any(isinstance(v, enum.Enum) for v in vals):
+                # statistics.mean converts an integral mean back to the enum class and fails when it is no member (host-boundary finding C19-H2,
+                # reported, kept out of the oracle)
+                decidable = False
             elif agg_numbers_only(vals):
-                fr = [Fraction(v) for v in vals]
+                fr = [Fraction(plain_shallow(v)) for v in vals]
                 mean = sum(fr) / len(fr)
                 if fn == 'sum':
                     row[name] = ('num', sum(fr))
@@ -654,9 +952,9 @@ def join_oracle(case, run):
     bad = []
     left, right = run['data'], run['right']
     lorig, rorig = run['orig'], run['right_orig']
-    variables = build(case['vars']) if case.get('vars') else None
-    lvals = eval_rows(case['expr'], lorig, variables)
-    rvals = eval_rows(case['rexpr'] if case.get('rexpr') is not None else case['expr'], rorig, variables)
+    env = case_env(case)
+    lvals = eval_rows(case['expr'], lorig, *env)
+    rvals = eval_rows(case['rexpr'] if case.get('rexpr') is not None else case['expr'], rorig, *env)
     res = run['result']
     if RAISED in lvals or RAISED in rvals:
         if run['status'] != 'raised':
@@ -677,7 +975,7 @@ def join_oracle(case, run):
         partners = [ri for ri, rv in enumerate(rvals) if typed_equal(lv, rv)]
         if partners:
             want.extend((li, ri) for ri in partners)
-        elif not case['isLeftJoin']:        # as coded and pinned by test_join_data_left (the doc comment says the opposite: observation)
+        elif not left_flag(case):        # as coded and pinned by test_join_data_left (the doc comment says the opposite: observation)
             want.append((li, None))
     if len(res) != len(want):
         bad.append(('join-pairs-equal-keys', [list(w) for w in want], enc_table(res)))
@@ -858,7 +1156,7 @@ def case_tags(case, run, model):
     if case['op'] == 'sort':
         tags.append('keys%d' % len(case['sorts']))
     if case['op'] == 'join':
-        tags.append('leftjoin' if case['isLeftJoin'] else 'keep-unmatched')
+        tags.append('leftjoin' if left_flag(case) else 'keep-unmatched')
     return tags
 
 
@@ -902,20 +1200,12 @@ def check_data_case(ctx, st, case, resp):
         ctx.witness(oracle, case, want, got)
 
 
-def run_case_with_ids(case):
-    if case['op'] != 'sort':
-        return run_case(case)
-    # remember the identity of the rows before the in-place sort
-    op, via = case['op'], case.get('via', 'direct')
-    rows = build_table(case['rows'])
-    out = {'data': rows, 'orig': copy.deepcopy(rows), 'before_ids': [id(r) for r in rows], 'keep': list(rows)}
-    res = call_lib('dataSort', [rows, [build(s) for s in case['sorts']]], via)
-    out['status'], out['result'] = res
-    return out
+def run_case_with_ids(case, options=None):
+    return run_case(case, options)
 
 
 def data_cases(ctx, rng, n):
-    cases = [c for c in load_corpus() if c.get('op') in ('filter', 'calc', 'sort', 'top', 'aggregate', 'join')]
+    cases = [c for c in load_corpus() if c.get('op') in ('filter', 'calc', 'sort', 'top', 'aggregate', 'join') and c.get('stream') != 'host']
     for _ in range(n):
         cases.append(gen_case(rng))
     return cases
@@ -1291,8 +1581,19 @@ def gen_csv_case(rng, off):
         if rng.random() < 0.1:
             # an empty text adds nothing, wherever it stands (before the header chunk too: regression of the first F32 patch, fixed)
             chunks.insert(rng.randint(0, len(chunks)), '')
+    linecut = False
+    if len(chunks) == 1 and rng.random() < 0.25:
+        # several chunk arguments cut at physical line ends (the line end stays with its line), also inside quoted multi-line cells and in
+        # malformed text: exactly the same physical lines reach the reader as for the whole text
+        phys = ref_split_lines(text)
+        if len(phys) > 1:
+            cut = sorted(rng.sample(range(1, len(phys)), min(len(phys) - 1, rng.randint(1, 3))))
+            chunks = [''.join(phys[a:b]) for a, b in zip([0] + cut, cut + [len(phys)])]
+            if rng.random() < 0.2:
+                chunks.insert(rng.randint(0, len(chunks)), rng.choice([None, '']))
+            linecut = True
     return {'header': header, 'records': records, 'typed': typed, 'chunks': chunks, 'off': off, 'short': short, 'malformed': bool(verbatim),
-            'via': 'script' if rng.random() < 0.1 else 'direct'}
+            'via': 'script' if rng.random() < 0.1 else 'direct', 'linecut': linecut, 'hstr': rng.random() < 0.05}
 
 
 def split_cells(case):
@@ -1342,6 +1643,10 @@ def check_csv_case(ctx, st, case, resp, header, recs):
         tags.append('via-script')
     if len(case['chunks']) > 1:
         tags.append('chunks')
+    if case.get('hstr'):
+        tags.append('str-subclass-chunks')
+    if case.get('linecut'):
+        tags.append('chunks-cut-in-multiline-text' if any(ch in ''.join(c or '' for r in case['records'] for c in r) for ch in '\r\n') else 'chunks-cut-at-line-ends')
     st.case({k: case[k] for k in ('header', 'records', 'chunks', 'off')}, nontrivial=len(case['records']) >= 1, tags=tags)
     if resp is not None:
         model = dict(resp)
@@ -1352,6 +1657,24 @@ def check_csv_case(ctx, st, case, resp, header, recs):
     if 'exception' in impl:
         ctx.witness('csv-parse-does-not-abort', case['chunks'], 'table or field TypeError', impl['exception'])
         return
+    # oracle 1a: text handed over by the embedding application as str-subclass instances parses like the plain strings
+    if case.get('hstr'):
+        try:
+            sub = enc_table(library.SCRIPT_FUNCTIONS['dataParseCSV']([c if c is None else HStr(c) for c in case['chunks']], None))
+        except Exception as exc:  # pylint: disable=broad-except
+            sub = type(exc).__name__
+        if sub != (impl.get('rows') if 'rows' in impl else 'TypeError'):
+            ctx.witness('csv-str-subclass-chunks-equal-plain', case['chunks'], impl, sub)
+            return
+    # oracle 1b: chunk arguments cut at physical line ends parse like the whole text
+    if case.get('linecut'):
+        try:
+            whole = enc_table(library.SCRIPT_FUNCTIONS['dataParseCSV'](['' .join(c for c in case['chunks'] if c is not None)], None))
+        except Exception as exc:  # pylint: disable=broad-except
+            whole = type(exc).__name__
+        if whole != (impl.get('rows') if 'rows' in impl else 'TypeError'):
+            ctx.witness('csv-chunks-cut-at-line-ends-equal-whole-text', case['chunks'], whole, impl)
+            return
     # oracle 2: reference typing (records with surplus cells get a None key from csv.DictReader: outside the property)
     if header is not None and (len(set(header)) != len(header) or any(len(r) != len(header) for r in recs)):
         return
@@ -1485,9 +1808,512 @@ def stream_cell(ctx):
     st.exhaustive = True
 
 
+# ---------------------------------------------------------------------------------------------------------------------
+# Stream `host` / `hostkey`: tables that come from the embedding application (host-boundary values), host globals and variables whose names
+# collide with field names, host callables in expressions, unusual but legal arguments
+# ---------------------------------------------------------------------------------------------------------------------
+
+HOST_ZONES = ['UTC', 'Etc/GMT-3', 'Etc/GMT+5']        # fixed-offset zones (POSIX sign: Etc/GMT-3 is UTC+3)
+HOST_FILTER_EXPRS = ['a', 'b', 'a == b', 'a == vv', 'vv == a', '!a', 'a && b', 'a || b', 'a != null', 'a < b', 'a <= vv', 'if(a, b, c)', 'hostId(a)',
+                     'hostBoom(a)', 'hostOdd(a)', 'hostKw(a)', 'k', 'a2', 'a || vv', '(a)', 'a != b', 'c', 'vv']
+HOST_CALC_EXPRS = ['a', 'vv', 'a == b', 'if(a, a, b)', 'hostId(b)', 'arrayNew(a, b)', "objectNew('k', a)", 'null', 'a || vv', 'b', 'k', 'hostBoom(a)',
+                   'a < vv', 'c', 'hostKw(a)']
+HOST_JOIN_EXPRS = ['a', 'a', 'a', 'k', 'k', 'b', 'vv', 'if(a, a, b)', 'hostId(a)', 'a || vv', '(a)', 'a2', 'hostKw(k)', 'c']
+HOST_VAR_NAMES = ['vv', 'a', 'b', 'k', 'a2', 'c']
+HOST_DESC_FLAGS = DESC_FLAGS + [H('int', I(0)), H('int', I(1)), H('ienum', I(0)), H('ienum', I(1)), H('str', ''), H('senum', ''), H('senum', 'x'),
+                                H('list', L()), H('float', F(0.0)), DD(2020, 1, 1)]
+HOST_LEFT_FLAGS = [True, False, True, False, I(1), I(0), H('ienum', I(0)), H('ienum', I(2)), H('str', ''), 'x', '', H('list', L()), L(I(0)), DD(2020, 1, 1), None,
+                   O(), H('senum', ''), F(0.0)]
+HOST_MEASURE_NUM = [I(0), I(1), I(2), I(3), I(-3), F(0.5), F(2.0), F(-1.25), None, None, H('int', I(2)), H('int', I(-3)), H('int', I(6)), H('float', F(0.5)),
+                    H('float', F(4.75)), H('float', F(2.0)), H('ienum', I(1)), H('ienum', I(3)), H('ienum', I(10))]
+HOST_MEASURE_STR = ['b', H('str', 'a'), H('senum', 'ab'), '', 'B', None, H('senum', 'b'), H('str', 'b'), 'ab']
+
+
+def _aware(fields, offmin, off):
+    """the aware datetime (spec) with UTC offset `offmin` minutes of the instant that the naive local datetime `fields` stands for"""
+    wall = datetime.datetime(*fields) - datetime.timedelta(seconds=off) + datetime.timedelta(minutes=offmin)
+    return DZ(wall.year, wall.month, wall.day, wall.hour, wall.minute, wall.second, wall.microsecond, offmin)
+
+
+def host_key_groups(off):
+    """pools of key values: every pool mixes the host representations of one language value with its plain form and with near misses"""
+    b0 = (2020, 1, 1, 0, 0, 0, 0)
+    b1 = (2021, 5, 6, 7, 8, 9, 0)
+    other = 330 if off != 330 * 60 else 60
+
+    def aw(fields, offmin):
+        return _aware(fields, offmin, off)
+
+    return [
+        [D(*b0), aw(b0, 330), aw(b0, 0), aw(b0, -480), DD(2020, 1, 1), H('dt', D(*b0)), H('dt', aw(b0, 60)), H('date', DD(2020, 1, 1)),
+         DZ(*b0, other),                     # the same wall clock in another zone: another instant
+         D(2020, 1, 1, 0, 0, 0, 1000), aw((2020, 1, 1, 0, 0, 0, 1000), -210), '2020-01-01T00:00:00+00:00', None],
+        [D(*b1), D(*b1[:6], 1), aw(b1[:6] + (1,), 60), aw(b1, 840), D(*b1[:6], 999), D(*b1[:6], 1000), H('dt', D(*b1[:6], 1)), aw(b1[:6] + (999,), 0),
+         aw(b1[:6] + (1000,), -480)],
+        [I(1), H('int', I(1)), H('ienum', I(1)), F(1.0), H('float', F(1.0)), True, '1', H('str', '1'), H('senum', '1'), I(2), H('ienum', I(2)), None],
+        ['a', H('str', 'a'), H('senum', 'a'), 'x', H('senum', 'x'), '', H('str', ''), H('senum', ''), None, 'A', H('senum', 'A')],
+        [I(0), H('int', I(0)), H('ienum', I(0)), F(0.0), H('float', F(-0.0)), False, '', None, L(), H('list', L()), O(), H('dict', O()), H('odict', O())],
+        [L(I(1)), H('list', L(I(1))), L(H('int', I(1))), L(F(1.0)), L(H('ienum', I(1))), O(['k', I(1)]), H('dict', O(['k', I(1)])),
+         H('odict', O(['k', H('ienum', I(1))])), O(['k', '1']), L(D(*b0)), L(aw(b0, 330)), L(DD(2020, 1, 1)), O(['k', aw(b0, -480)]), O(['k', D(*b0)]),
+         O(['k', H('senum', '1')])],
+        [DD(2020, 1, 1), DD(2020, 1, 2), H('date', DD(2020, 1, 2)), D(2020, 1, 2), aw((2020, 1, 2, 0, 0, 0, 0), 330), D(2020, 1, 1, 12), aw((2020, 1, 1, 12, 0, 0, 0), -480),
+         DD(2019, 12, 31), aw((2019, 12, 31, 0, 0, 0, 0), 840)],
+    ]
+
+
+def host_measure_pools(off):
+    insts = [(2021, 5, 6, 0, 0, 0, 0), (2020, 1, 1, 0, 0, 0, 0), (2020, 1, 1, 0, 0, 1, 0), (2020, 1, 1, 23, 30, 0, 0), (2020, 1, 2, 0, 0, 0, 1000)]
+    offs = [0, 330, -480, 840, -210]
+    naive = [D(*f) for f in insts] + [None, H('dt', D(*insts[1]))]
+    # aware values of different zones: the order of the instants is not the order of the wall clocks
+    aware = [_aware(f, o, off) for f in insts for o in offs[:3]] + [None]
+    dates = [DD(2020, 1, 1), DD(2021, 5, 6), DD(2020, 1, 2), H('date', DD(2019, 12, 31)), None]
+    return {'num': HOST_MEASURE_NUM, 'str': HOST_MEASURE_STR, 'naive': naive, 'aware': aware, 'date': dates, 'dtmix': naive + aware + dates}
+
+
+def gen_host_env(rng, case, keypool, exprs):
+    """variables argument and host globals: names that collide with the field names (a row that lacks the field sees them), host callables"""
+    used = ' '.join(e for e in exprs if e)
+    names = [n for n in HOST_VAR_NAMES if re.search(r'\b%s\b' % n, used)]
+    vnames = [n for n in names if rng.random() < 0.55]
+    if rng.random() < 0.2:
+        vnames.append(rng.choice(HOST_VAR_NAMES))
+    gnames = [n for n in names if rng.random() < 0.3]
+    if vnames or rng.random() < 0.1:
+        spec = O(*[[n, rng.choice(keypool)] for n in dict.fromkeys(vnames)])
+        case['vars'] = spec if rng.random() < 0.7 else H(rng.choice(['dict', 'odict']), spec)
+    if gnames:
+        case['globals'] = O(*[[n, rng.choice(keypool)] for n in dict.fromkeys(gnames)])
+    case['hostfns'] = True
+
+
+def gen_host_case(rng, off, tzname):
+    op = rng.choice(['filter', 'calc', 'sort', 'sort', 'top', 'top', 'aggregate', 'aggregate', 'aggregate', 'join', 'join', 'join', 'join'])
+    fields = list(rng.choice(FIELD_POOLS))
+    rng.shuffle(fields)
+    fields = fields[:rng.randint(1, 4)]
+    groups = host_key_groups(off)
+    pool = list(rng.choice(groups))
+    if rng.random() < 0.25:
+        pool = pool + list(rng.choice(groups))
+    keypool = rng.sample(pool, min(len(pool), rng.randint(2, 6)))
+    case = {'op': op, 'via': rng.choice(['direct', 'script', 'expr']), 'tz': tzname}
+    if rng.random() < 0.3:
+        case['rowkind'] = rng.choice(['hdict', 'odict', 'hkeys'])
+    if rng.random() < 0.15:
+        case['tablekind'] = 'hlist'
+    if op in ('filter', 'calc', 'join') and case['via'] == 'direct' and rng.random() < 0.15:
+        case['opt'] = rng.choice(['bare', 'bare', 'none'])
+    if op == 'filter':
+        case['rows'] = gen_rows(rng, fields, keypool, nmax=8)
+        case['expr'] = rng.choice(HOST_FILTER_EXPRS) if rng.random() < 0.95 else rng.choice(RAISING_EXPRS)
+        gen_host_env(rng, case, keypool, [case['expr']])
+    elif op == 'calc':
+        case['rows'] = gen_rows(rng, fields, keypool, nmax=8)
+        case['expr'] = rng.choice(HOST_CALC_EXPRS) if rng.random() < 0.95 else rng.choice(RAISING_EXPRS)
+        case['field'] = rng.choice(fields + ['z', 'a', 'a2', 'new field'])
+        gen_host_env(rng, case, keypool, [case['expr']])
+    elif op == 'sort':
+        case['rows'] = gen_rows(rng, fields, keypool, nmax=10)
+        sorts = []
+        for _ in range(rng.choice([1, 1, 2, 2, 3])):
+            f = rng.choice(fields + ['missing'])
+            flag = rng.choice(HOST_DESC_FLAGS)
+            entry = L(f) if flag is None and rng.random() < 0.7 else L(f, flag)
+            if rng.random() < 0.2:
+                entry = L(H('str', f), *entry['l'][1:])
+            sorts.append(H('list', entry) if rng.random() < 0.2 else entry)
+        case['sorts'] = sorts
+    elif op == 'top':
+        case['rows'] = gen_rows(rng, fields, keypool, nmax=10)
+        n = rng.choice([1, 1, 2, 2, 3, 5])
+        r = rng.random()
+        if r < 0.85:
+            case['count'] = rng.choice([F(n), I(n), H('int', I(n)), H('ienum', I(n)), H('float', F(n))])
+        else:
+            case['count'] = rng.choice([H('int', I(0)), H('float', F(1.5)), H('ienum', I(0)), H('int', I(-1)), H('float', F(0.0))])
+        case['fields'] = None if rng.random() < 0.2 else [rng.choice(fields + ['missing']) for _ in range(rng.choice([1, 1, 2, 3]))]
+    elif op == 'aggregate':
+        nkeys = rng.randint(0, max(0, len(fields) - 1))
+        key_fields = fields[:nkeys]
+        measure_fields = fields[nkeys:] or ['m']
+        pools = host_measure_pools(off)
+        mkind = rng.choice(['num', 'num', 'num', 'num', 'str', 'naive', 'aware', 'aware', 'date', 'dtmix'])
+        case['rows'] = gen_rows(rng, fields, keypool, nmax=10, measure_pool=pools[mkind], key_fields=key_fields)
+        case['categories'] = None if not key_fields or rng.random() < 0.15 else [rng.choice(key_fields + ['missing']) for _ in range(rng.choice([1, 1, 2]))]
+        fns = FUNCTIONS if mkind == 'num' else ['count', 'max', 'min', 'max', 'min']
+        measures, used = [], set()
+        for _ in range(rng.choice([1, 2, 2, 3])):
+            m = {'field': rng.choice(measure_fields + ['missing']), 'function': rng.choice(fns)}
+            if rng.random() < 0.45 or m['field'] in used:
+                m['name'] = rng.choice(['n1', 'n2', 'n3', 'total', 'a9'])
+            if m.get('name', m['field']) in used or m.get('name', m['field']) in (case['categories'] or []):
+                continue
+            used.add(m.get('name', m['field']))
+            measures.append(m)
+        case['measures'] = measures or [{'field': measure_fields[0], 'function': 'count', 'name': 'n0'}]
+        if rng.random() < 0.15:
+            case['aggkind'] = 'host'
+    else:
+        rfields = list(rng.choice(FIELD_POOLS))
+        rng.shuffle(rfields)
+        rfields = rfields[:rng.randint(1, 4)]
+        if rng.random() < 0.7 and 'a' not in rfields:
+            rfields[0] = 'a'
+        if 'a' not in fields and rng.random() < 0.7:
+            fields[0] = 'a'
+        case['rows'] = gen_rows(rng, fields, keypool, nmax=6, key_fields=fields)
+        case['right'] = gen_rows(rng, rfields, keypool, nmax=6, key_fields=rfields)
+        case['expr'] = rng.choice(HOST_JOIN_EXPRS) if rng.random() < 0.96 else rng.choice(RAISING_EXPRS)
+        case['rexpr'] = None if rng.random() < 0.6 else rng.choice(HOST_JOIN_EXPRS)
+        case['isLeftJoin'] = rng.choice(HOST_LEFT_FLAGS)
+        gen_host_env(rng, case, keypool, [case['expr'], case['rexpr']])
+    return case
+
+
+def twin_spec(s):
+    return spec_of(plain(build(s)))
+
+
+def twin_case(case):
+    """the same case with every host value replaced by the plain value it stands for (plain dict rows in a plain list, plain arguments)"""
+    t = {k: v for k, v in case.items() if k not in ('rowkind', 'tablekind', 'aggkind')}
+    for key in ('rows', 'right'):
+        if key in t:
+            t[key] = [[[k, twin_spec(v)] for k, v in row] for row in t[key]]
+    for key in ('vars', 'globals', 'count'):
+        if t.get(key) is not None:
+            t[key] = twin_spec(t[key])
+    if 'sorts' in t:
+        t['sorts'] = [twin_spec(s) for s in t['sorts']]
+    if 'isLeftJoin' in t:
+        t['isLeftJoin'] = left_flag(case)
+    return t
+
+
+def has_enum(v):
+    if isinstance(v, enum.Enum):
+        return True
+    if isinstance(v, dict):
+        return any(has_enum(x) for x in v.values())
+    if isinstance(v, list):
+        return any(has_enum(x) for x in v)
+    return False
+
+
+def host_outside(case, run):
+    """host cases whose answer the property does not fix (kept out of the twin oracle; the reference oracles decide for themselves)"""
+    if case['op'] == 'aggregate':
+        for m in case['measures']:
+            vals = [r.get(m['field']) for r in run['orig']]
+            vals = [v for v in vals if v is not None]
+            # min / max over datetimes of more than one representation: finding C19-H1
+            if m['function'] in ('min', 'max') and len({dt_repr(v) for v in vals if isinstance(v, datetime.date)}) > 1:
+                return True
+            # min / max over arrays / objects: outside the property's meaning (ASSUMPTIONS), Python orders their members its own way
+            if m['function'] in ('min', 'max') and any(isinstance(v, (list, dict)) for v in vals):
+                return True
+            # average over IntEnum members: finding C19-H2
+            if m['function'] == 'average' and any(isinstance(v, enum.Enum) for v in vals):
+                return True
+    return False
+
+
+def outcome_view(case, run):
+    """the outcome of a run with host values read as the plain values they stand for"""
+    op = case['op']
+    if run['status'] == 'raised':
+        return {'raised': run['result']}
+    res = run['result']
+    if op == 'calc':
+        return {'rows': enc_table(run['data']), 'same-array': res is run['data']}
+    if op == 'sort':
+        before = run['before_ids']
+        return {'order': [before.index(id(r)) if id(r) in before else -1 for r in res] if isinstance(res, list) else str(res)}
+    if op in ('filter', 'top') and isinstance(res, list):
+        ids = [id(r) for r in run['data']]
+        return {'kept': [ids.index(id(r)) if id(r) in ids else -1 for r in res]}
+    return {'result': enc_table(res) if isinstance(res, list) else enc(res)}
+
+
+def host_oracles(case, run):
+    """reference oracles + the plain-twin relation.  -> [(oracle, expected, actual)]"""
+    bad = list(oracles(case, run))
+    if not host_outside(case, run):
+        twin = twin_case(case)
+        trun = run_case(twin)
+        want, got = outcome_view(twin, trun), outcome_view(case, run)
+        if want != got:
+            bad.append(('host-table-equals-plain-twin', want, got))
+    return bad
+
+
+def check_host_case(ctx, st, case, resp):
+    run = run_case(case)
+    model = model_view(case, resp) if resp is not None else None
+    tags = case_tags(case, run, model) + [case['tz']] + ['rows-' + case.get('rowkind', 'dict')] + (['opt-' + case['opt']] if case.get('opt') else [])
+    tags += sorted({'val-' + k for k in host_value_kinds(case)})
+    if case.get('vars') or case.get('globals'):
+        tags.append('colliding-names' if set(name for name, _ in (build_pairs(case.get('vars')) + build_pairs(case.get('globals')))) & set(all_field_names(case)) else 'variables')
+    st.case(case, nontrivial=nontrivial(case, run), tags=tags)
+    if model is not None and 'bad' in model:
+        ctx.disagree('host', case, 'request', model, 'driver rejected the request')
+    elif model is not None and not model.get('unmodelled') and not host_outside(case, run):
+        ctx.compare('host', case, impl_view(case, run, model), model)
+    for oracle, want, got in host_oracles(case, run):
+        ctx.witness(oracle, case, want, got)
+
+
+def build_pairs(spec):
+    """[(name, value spec)] of an object spec (possibly a host mapping)"""
+    if not spec:
+        return []
+    while 'h' in spec:
+        spec = spec['h'][1]
+    return [(k, v) for k, v in spec.get('o', [])]
+
+
+def all_field_names(case):
+    return {k for key in ('rows', 'right') for row in case.get(key, []) for k, _ in row}
+
+
+def host_value_kinds(case):
+    kinds = set()
+
+    def walk(s):
+        if isinstance(s, dict):
+            (k, v), = s.items()
+            if k == 'h':
+                kinds.add(v[0])
+                walk(v[1])
+            elif k == 'dz':
+                kinds.add('aware')
+            elif k == 'dd':
+                kinds.add('date')
+            elif k == 'd' and v[6] % 1000:
+                kinds.add('submilli')
+            elif k == 'l':
+                for x in v:
+                    walk(x)
+            elif k == 'o':
+                for _, x in v:
+                    walk(x)
+    for key in ('rows', 'right'):
+        for row in case.get(key, []):
+            for _, v in row:
+                walk(v)
+    return kinds
+
+
+def host_request(case):
+    """the model sees the plain twin: the table after every host value was replaced by the plain value it stands for"""
+    return case_request(twin_case(case))
+
+
+def host_zones(ctx):
+    return HOST_ZONES[:2] if ctx.quick else HOST_ZONES
+
+
+def stream_host(ctx):
+    st = ctx.stream('host', 'tables handed over by the embedding application, <= 10 rows x 4 fields, through all six data functions via the library '
+                            'function, execute_script or evaluate_expression: key / category / measure / sort columns mixing the plain form of a value '
+                            'with its host representations - timezone-aware datetimes of several UTC offsets and plain dates of the same instant as a '
+                            'naive local datetime (and the same wall clock in another zone: a different instant), sub-millisecond datetimes, subclasses of '
+                            'int / float / str / dict / list / datetime / date, IntEnum and str-Enum members, also nested in arrays / objects; rows that are dict '
+                            'subclasses / OrderedDicts / have str-subclass field names, the table a list subclass; the variables argument and host '
+                            "globals (options['globals']) define names that collide with field names while some rows lack the field; host callables in the "
+                            'expressions (identity, raising, without the options parameter, keyword-only extras); options without globals / options None; '
+                            'host values as count, descending flag, isLeftJoin, aggregation model; run under TZ=UTC and a non-UTC fixed-offset zone. Oracles: the '
+                            'reference relational semantics on the plain values (written from the documentation, not value.py) and "the host table gives '
+                            'what its plain twin gives"; the Lean model is compared on the plain twin (it has no host representations: the '
+                            'normalisation itself is checked by the implementation-side oracles only); non-trivial = at least 2 rows (join: and a right row)')
+    total = ctx.scale(5000, 60000)
+    zones = host_zones(ctx)
+    for tzname in zones:
+        def body(tzname=tzname):
+            off = local_offset()
+            rng = ctx.rng('host', tzname)
+            cases = [c for c in load_corpus() if c.get('op') in ('filter', 'calc', 'sort', 'top', 'aggregate', 'join') and c.get('stream') == 'host'
+                     and c.get('tz', 'UTC') == tzname]
+            for c in cases:
+                c.setdefault('tz', tzname)
+            for _ in range(total // len(zones)):
+                cases.append(gen_host_case(rng, off, tzname))
+            resps = ctx.driver.batch([host_request(c) for c in cases])
+            for case, resp in zip(cases, resps):
+                check_host_case(ctx, st, case, resp)
+        with_zone(tzname, body)
+
+
+def host_key_pool(off):
+    pool = []
+    for g in host_key_groups(off):
+        for s in g:
+            if s not in pool:
+                pool.append(s)
+    return pool
+
+
+def key_pair_fails(a, b):
+    """-> (expected, actual) of the bucket-key oracle if it fails on the pair, else None"""
+    data = fw.impl()['data']
+    ka, kb = data._bucket_key(a), data._bucket_key(b)  # pylint: disable=protected-access
+    impl_eq = ka == kb
+    want = typed_equal(a, b)
+    if impl_eq != want or (impl_eq and hash(ka) != hash(kb)):
+        return want, impl_eq if impl_eq != want else 'equal keys with different hashes'
+    return None
+
+
+def stream_hostkey(ctx):
+    st = ctx.stream('hostkey', 'all ordered pairs of the host key pool (every host representation of a value next to its plain form and near misses: aware / naive / '
+                               'date / subclass datetimes of equal and of different instants, sub-millisecond steps, int / float / str subclasses and enum '
+                               'members, nested), per fixed-offset zone: _bucket_key(a) == _bucket_key(b) with equal hash vs typed equality of the plain '
+                               'values (oracle) vs the model key of the plain values; non-trivial = different specs')
+    data = fw.impl()['data']
+    for tzname in host_zones(ctx):
+        def body(tzname=tzname):
+            pool = host_key_pool(local_offset())
+            vals = [build(s) for s in pool]
+            pairs = [(i, j) for i in range(len(pool)) for j in range(len(pool))]
+            resps = ctx.driver.batch([{'op': 'key', 'a': enc(vals[i]), 'b': enc(vals[j])} for i, j in pairs])
+            for (i, j), resp in zip(pairs, resps):
+                a, b = vals[i], vals[j]
+                impl_eq = data._bucket_key(a) == data._bucket_key(b)  # pylint: disable=protected-access
+                inp = {'pair': [pool[i], pool[j]], 'tz': tzname}
+                st.case(inp, nontrivial=i != j, tags=[tname(a), tzname, 'equal' if impl_eq else 'different'])
+                ctx.compare('hostkey', inp, {'keyEq': impl_eq, 'cmp0': typed_equal(a, b)}, {'keyEq': resp.get('keyEq'), 'cmp0': resp.get('cmp') == 0})
+                fails = key_pair_fails(a, b)
+                if fails:
+                    ctx.witness('bucket-key-is-typed-value-equality', inp, fails[0], fails[1])
+        with_zone(tzname, body)
+    st.exhaustive = True
+
+
+# ---------------------------------------------------------------------------------------------------------------------
+# Stream `reuse`: histories of data calls on ONE options object (and its one globals dict), with failing calls in between
+# ---------------------------------------------------------------------------------------------------------------------
+
+def gen_history(rng, off, tzname):
+    steps = []
+    for _ in range(rng.randint(2, 5)):
+        case = gen_host_case(rng, off, tzname) if rng.random() < 0.5 else gen_case(rng)
+        case.pop('opt', None)
+        case.pop('globals', None)
+        case.pop('tz', None)
+        case['via'] = rng.choice(['direct', 'script', 'expr'])
+        if case['op'] in ('filter', 'calc', 'join') and rng.random() < 0.3:
+            case['expr'] = rng.choice(RAISING_EXPRS)                    # a call that fails in the middle of the table
+            if 'vars' not in case and rng.random() < 0.5:
+                case['vars'] = O(['vv', I(1)], ['a', 'from-variables'])
+        if case['op'] == 'top' and rng.random() < 0.2:
+            case['count'] = rng.choice([F(0), F(1.5), I(-1)])           # an argument error
+        if case['op'] == 'aggregate' and rng.random() < 0.15:
+            case['measures'] = case['measures'] + [{'field': 'a', 'function': 'median'}]      # an invalid aggregation model
+        steps.append(case)
+    names = [n for n in HOST_VAR_NAMES if rng.random() < 0.35]
+    pool = rng.choice(host_key_groups(off))
+    hist = {'history': steps, 'globals': O(*[[n, rng.choice(pool)] for n in names]), 'tz': tzname}
+    if rng.random() < 0.45:
+        hist['pipe'] = True         # a pipeline: every call works on the table object the previous call left behind
+    return hist
+
+
+def history_step_case(hist, i):
+    case = dict(hist['history'][i])
+    case['globals'] = hist['globals']
+    case['hostfns'] = True
+    return case
+
+
+def run_history(hist):
+    """-> (step index, oracle, expected, actual) of the first failing step, or None"""
+    g = dict(HOST_FUNCTIONS)
+    g.update(build(hist['globals']))
+    opts = base_options(g)
+    table = None
+    for i in range(len(hist['history'])):
+        case = history_step_case(hist, i)
+        if table is not None:
+            case['rows'] = [[[str.__str__(k), spec_of(v)] for k, v in row.items()] for row in table]
+            for key in ('rowkind', 'tablekind'):
+                case.pop(key, None)
+        before = dict(opts['globals'])
+        run = run_case(case, options=opts, table=table)
+        if hist.get('pipe'):
+            # the next call gets the outcome: the result table, or - after a failure - the input table as the failed call left it (a
+            # dataCalculatedField that failed in the middle has updated the rows before the failure)
+            nxt = run['result'] if run['status'] == 'ok' and isinstance(run['result'], list) else run['data']
+            table = nxt if all(isinstance(r, dict) and all(isinstance(k, str) for k in r) for r in nxt) else None
+        if case['op'] == 'aggregate' and any(m['function'] not in FUNCTIONS for m in case['measures']):
+            if not (run['status'] == 'raised' or run['result'] is None):
+                return i, 'reuse:aggregate-invalid-model-fails', 'an error / null', enc_table(run['result'])
+            bad = []
+        else:
+            bad = host_oracles(case, run)
+        if bad:
+            return (i, 'reuse:' + bad[0][0]) + tuple(bad[0][1:])
+        after = opts['globals']
+        changed = sorted(k for k in before if not re.fullmatch(r'arg\d+', k) and (k not in after or after[k] is not before[k]))
+        added = sorted(k for k in after if k not in before and not re.fullmatch(r'arg\d+', k))
+        if changed or added:
+            return i, 'reuse:options-globals-unchanged', [], {'changed': changed, 'added': added}
+        if set(opts) - {'globals', 'maxStatements', 'statementCount'}:
+            return i, 'reuse:options-globals-unchanged', [], {'options-keys': sorted(opts)}
+    return None
+
+
+def history_witness(ctx, hist, bad, tzname):
+    """report a failing history: cut after the failing call, then drop every earlier call the failure does not need"""
+    i, oracle, want, got = bad
+    steps = list(hist['history'][:i + 1])
+    if len(ctx.witnesses) < 10:
+        j = 0
+        while j < len(steps) - 1:
+            shorter = steps[:j] + steps[j + 1:]
+            again = run_history({'history': shorter, 'globals': hist['globals'], 'tz': tzname, 'pipe': hist.get('pipe')})
+            if again is not None and again[1] == oracle and again[0] == len(shorter) - 1:
+                steps, want, got = shorter, again[2], again[3]
+            else:
+                j += 1
+    inp = {'history': steps, 'globals': hist['globals'], 'tz': tzname}
+    if hist.get('pipe'):
+        inp['pipe'] = True
+    ctx.witness(oracle, inp, fw.shorten(want, 3000), fw.shorten(got, 3000), step=len(steps) - 1)
+
+
+def stream_reuse(ctx):
+    st = ctx.stream('reuse', "histories of 2-5 data calls (cases of the data and host streams) that share ONE options object and its one globals dict (host "
+                             'globals colliding with field names, host callables), 30% of the filter / calc / join calls fail in the middle of the table '
+                             '(undefined function), some dataTop / dataAggregate calls get invalid arguments; 45% of the histories are PIPELINES: every call works on the table '
+                             'object the previous call left behind (result table; after a failure the half-updated input table); after every call: the reference oracles and the '
+                             "plain-twin relation of that call (computed with fresh options), and the caller's globals are untouched (no variables "
+                             'argument leaks into them, nothing is replaced). The Lean model has no options object: implementation-side oracles only; '
+                             'non-trivial = a failing call is followed by another call')
+    total = ctx.scale(1500, 15000)
+    zones = host_zones(ctx)
+    for tzname in zones:
+        def body(tzname=tzname):
+            off = local_offset()
+            rng = ctx.rng('reuse', tzname)
+            for _ in range(total // len(zones)):
+                hist = gen_history(rng, off, tzname)
+                bad = run_history(hist)
+                raising = [i for i, c in enumerate(hist['history']) if c.get('expr') in RAISING_EXPRS]
+                st.case(hist, nontrivial=bool(raising) and raising[0] + 1 < len(hist['history']),
+                        tags=['steps%d' % len(hist['history']), tzname, 'pipeline' if hist.get('pipe') else 'separate-tables'] + ['op-' + c['op'] for c in hist['history']]
+                        + (['with-failing-call'] if raising else []))
+                if bad:
+                    history_witness(ctx, hist, bad, tzname)
+        with_zone(tzname, body)
+
+
 def streams(ctx):
     stream_key(ctx)
+    stream_hostkey(ctx)
     stream_data(ctx)
+    stream_host(ctx)
+    stream_reuse(ctx)
     with_zone('UTC', lambda: stream_cell(ctx))
     stream_csv(ctx)
 
@@ -1506,8 +2332,34 @@ def search(ctx):
             if eq != typed_equal(a, b):
                 ctx.witness('bucket-key-is-typed-value-equality', [spec_of(a), spec_of(b)], typed_equal(a, b), eq)
                 return
+    for tzname in HOST_ZONES:
+        def host_search(tzname=tzname):
+            off = local_offset()
+            vals2 = [(s, build(s)) for s in host_key_pool(off)]
+            for sa, a in vals2:
+                for sb, b in vals2:
+                    fails = key_pair_fails(a, b)
+                    if fails:
+                        ctx.witness('bucket-key-is-typed-value-equality', {'pair': [sa, sb], 'tz': tzname}, fails[0], fails[1])
+                        return
+            rng3 = ctx.rng('search-host', tzname)
+            for _ in range(ctx.scale(3000, 40000)):
+                case = gen_host_case(rng3, off, tzname)
+                bad = host_oracles(case, run_case(case))
+                if bad:
+                    ctx.witness(bad[0][0], case, bad[0][1], bad[0][2])
+                    return
+            for _ in range(ctx.scale(1500, 20000)):
+                hist = gen_history(rng3, off, tzname)
+                bad = run_history(hist)
+                if bad:
+                    history_witness(ctx, hist, bad, tzname)
+                    return
+        with_zone(tzname, host_search)
+        if ctx.witnesses:
+            return
     rng = ctx.rng('search')
-    cases = [c for c in load_corpus() if c.get('op') != 'csv']
+    cases = [c for c in load_corpus() if c.get('op') != 'csv' and c.get('stream') != 'host']
     for _ in range(ctx.scale(6000, 80000)):
         cases.append(gen_case(rng))
     for case in cases:
@@ -1533,10 +2385,17 @@ def search(ctx):
 def replay(witness):
     oracle, inp = witness.get('oracle'), witness['input']
     if oracle == 'bucket-key-is-typed-value-equality':
-        data = fw.impl()['data']
-        a, b = build(inp[0]), build(inp[1])
-        return (data._bucket_key(a) == data._bucket_key(b)) != typed_equal(a, b)  # pylint: disable=protected-access
+        if isinstance(inp, dict):       # host key pool: a pair of specs and the zone it was found in
+            return with_zone(inp.get('tz', 'UTC'), lambda: key_pair_fails(build(inp['pair'][0]), build(inp['pair'][1])) is not None)
+        return key_pair_fails(build(inp[0]), build(inp[1])) is not None
+    if isinstance(inp, dict) and 'history' in inp:
+        def history_body():
+            bad = run_history(inp)
+            return bad is not None and bad[1] == oracle
+        return with_zone(inp.get('tz', 'UTC'), history_body)
     if isinstance(inp, dict) and 'op' in inp:
+        if 'tz' in inp or oracle == 'host-table-equals-plain-twin':
+            return with_zone(inp.get('tz', 'UTC'), lambda: any(name == oracle for name, _, _ in host_oracles(inp, run_case(inp))))
         run = run_case_with_ids(inp)
         return any(name == oracle for name, _, _ in oracles(inp, run))
     # csv witnesses: input = the chunk arguments
@@ -1554,7 +2413,8 @@ def replay(witness):
     def body():
         off = local_offset()
         c = {'header': [], 'records': [], 'typed': [], 'chunks': inp, 'off': off, 'short': oracle != 'csv-script-call-equals-direct',
-             'via': 'script' if oracle == 'csv-script-call-equals-direct' else 'direct'}
+             'via': 'script' if oracle == 'csv-script-call-equals-direct' else 'direct',
+             'linecut': oracle == 'csv-chunks-cut-at-line-ends-equal-whole-text', 'hstr': oracle == 'csv-str-subclass-chunks-equal-plain'}
         header, recs = split_cells(c)
         c['header'] = header or []
         c['records'] = recs
@@ -1582,3 +2442,9 @@ def replay(witness):
             return want not in cols
         return oracle in cx.witnesses
     return with_zone('UTC', body)
+
+
+# extension: further model code, theorems and streams (DESIGN 13.7)
+from props import c19x as _ext  # noqa: E402  pylint: disable=wrong-import-position
+_ext.EXTRA_ROOTS = ['Drv.C19X']
+fw.attach_extension(globals(), _ext)
